@@ -236,6 +236,15 @@ func oracleC02(r *Rng, n int, thorough bool, seeds []string) *OracleResult {
 			}
 			if s3 := stripLabelOriginals(ref.term); s3 != s1 {
 				what, class = "RFC reading of ToBytes(m) != m: "+firstDiff(s1, s3), "v6-wire-layout:"+termDiffCtor(s1, s3, "msg")
+				return
+			}
+			// the decoded value stays equal: it does not change when the caller reuses
+			// the bytes it was decoded from (a receive buffer)
+			for i := range b {
+				b[i] ^= 0x5a
+			}
+			if s4 := stripLabelOriginals(sxMsg6(m2)); s4 != s1 {
+				what = "the decoded message changed when the bytes it was decoded from were overwritten: " + firstDiff(s1, s4)
 			}
 		}()
 		if what != "" {
